@@ -125,6 +125,15 @@ Proof.
     intros r E; injection E as <-; reflexivity.
 Qed.
 
+Lemma typed_list_wf v0 rest :
+  forallb wfb (v0 :: rest) = true -> forallb (fun v => ty_eqb (type_of v) (type_of v0)) rest = true ->
+  wf (VList (type_of v0) (v0 :: rest)).
+Proof.
+  unfold wf. cbn [wfb forallb]. intros W T. apply andb_true_iff in W as [W0 Wr]. rewrite ty_eqb_refl, W0. cbn [andb].
+  induction rest as [|x r IH]; cbn [forallb] in *; [reflexivity|].
+  apply andb_true_iff in Wr as [A B]. apply andb_true_iff in T as [C D]. rewrite C, A. cbn [andb]. apply IH; assumption.
+Qed.
+
 Lemma splat_tail_wf ev c sv0 ds :
   (forall x, wf x -> wf (fst (ev c (Some x)))) -> wf sv0 -> wf (fst (splat_tail ev c sv0 ds)).
 Proof.
@@ -159,11 +168,11 @@ Proof.
       * destruct (map fst _) as [|v0 rest] eqn:Mv.
         -- match goal with |- context [let '(rt, tds) := ?R in _] => destruct R as [rt tds] end.
            apply wf_with_marks. reflexivity.
-        -- destruct (forallb _ rest); [apply wf_with_marks; exact Wv|reflexivity].
+        -- destruct (forallb _ rest) eqn:Ft; [apply wf_with_marks; exact (typed_list_wf _ _ Wv Ft)|reflexivity].
       * destruct (map fst _) as [|v0 rest] eqn:Mv.
         -- match goal with |- context [let '(rt, tds) := ?R in _] => destruct R as [rt tds] end.
            apply wf_with_marks. reflexivity.
-        -- destruct (forallb _ rest); [apply wf_with_marks; exact Wv|reflexivity].
+        -- destruct (forallb _ rest) eqn:Ft; [apply wf_with_marks; exact (typed_list_wf _ _ Wv Ft)|reflexivity].
 Qed.
 
 Section WF.
